@@ -89,3 +89,20 @@ Theorem C01_zero_copy_atomic_payloads_all_accounted_for :
   yielded_of (ulog _ s) ++ map (upool _ s) (inring (ub _ s)) = accepted_of (ulog _ s).
 Proof. exact zc_atomic_payload_accounted. Qed.
 Print Assumptions C01_zero_copy_atomic_payloads_all_accounted_for.
+
+(* ---- the same for the zero-copy FULL-SYNC Uni channel (Alloc/ZcPayloadFS.v): values delivered = prefix of values accepted; and in every
+   state in which nobody stands between a ring step under B's flag and the return of its operation (in particular when B's flag is free)
+   delivered ++ contents of the queued slots = accepted ---- *)
+From RM Require Import ZcSolo ZcConserveFS ZcPayloadFS.
+Theorem C01_zero_copy_full_sync_payloads_exactly_once_in_order :
+  forall N, 0 < N -> forall M k wr cevs, let s := ZC.q _ (zcf_run N M k wr cevs) in
+  yielded_of (ulog _ s) = firstn (length (yielded_of (ulog _ s))) (accepted_of (ulog _ s)).
+Proof. exact zcf_payload_exactly_once_in_order. Qed.
+Print Assumptions C01_zero_copy_full_sync_payloads_exactly_once_in_order.
+
+Theorem C01_zero_copy_full_sync_payloads_all_accounted_for :
+  forall N, 0 < N -> forall M k wr cevs, let s := ZC.q _ (zcf_run N M k wr cevs) in
+  (forall t v id, uthr _ s t <> UEnqB v id) -> (forall t, uthr _ s t <> UDeqB) ->
+  yielded_of (ulog _ s) ++ map (upool _ s) (finring (ub _ s)) = accepted_of (ulog _ s).
+Proof. exact zcf_payload_accounted_quiet. Qed.
+Print Assumptions C01_zero_copy_full_sync_payloads_all_accounted_for.
